@@ -19,7 +19,7 @@ Next ==
     \/ listed > 0 /\ Reached /\ Spawn /\ UNCHANGED pendClosed
     \/ Slow /\ Spawn /\ UNCHANGED pendClosed
     \/ rt = "started" /\ Attempt /\ rt' = "dialing" /\ UNCHANGED pendClosed
-    \/ rt = "dialing" /\ Add /\ rt' = "added" /\ UNCHANGED pendClosed
+    \/ rt = "dialing" /\ rt' = "added" /\ \E a \in BOOLEAN : Add(a) /\ pendClosed' = pendClosed + (IF a \/ closed THEN 0 ELSE 1)
     \/ rt = "dialing" /\ rt' = "failed" /\ UNCHANGED <<cvars, pendClosed>>
     \/ rt = "added" /\ Tail(FALSE) /\ rt' = "idle" /\ UNCHANGED pendClosed
     \/ rt = "failed" /\ (\E again \in BOOLEAN : (again <=> (Auto /\ ~closed)) /\ Tail(again) /\ rt' = (IF again THEN "started" ELSE "idle"))
